@@ -138,3 +138,7 @@ M["N4_single_with_in_part_file"] = ("fastparquet/writer.py", '''            with
                                 compression=compression, fmd=fmd,
                                 stats=stats)
 ''', "N")
+M["M12_merge_schema_check_removed"] = ("fastparquet/util.py", '''                if pf._schema != pfs[0]._schema:
+                    raise ValueError('Incompatible schemas')
+''', '''                pass
+''', "M")
